@@ -15,7 +15,9 @@ VARIABLES s,      \* writer state (BodyWriter!InitW)
           last    \* last event and the clauses it failed (observation only; hidden by VIEW)
 
 vars == <<s, n0, hist, last>>
-view == <<s, n0, hist>>
+\* `last` is hidden from the fingerprint, except for whether the step failed a clause: otherwise a failing step that
+\* leaves the rest of the state unchanged would be merged with its predecessor and never be evaluated by Refines
+view == <<s, n0, hist, last.fails # {}>>
 
 NoEvent == [op |-> "init", fails |-> {}]
 
